@@ -24,7 +24,7 @@ TEXT = {
     "C04": ("C04_required_missing, C04_optional_missing, C04_shallow, C04_shallow_single, C04_ctor_not_run (a constructor with a missing direct dependency is not entered and logs nothing), C04_optional_absorbs_only_missing are proved", "verdict class, missing keys, zero-valued optional arguments compared with the model"),
     "C05": ("graph half proved at full strength for every graph size: C05_dfs_sound, C05_path, C05_dfs_total, C05_dfs_complete (Dfs.isAcyclic = internal/graph.IsAcyclic); resolver half: C05_resolver_terminates (any registry, cyclic or not: a Call never exhausts a recursion budget of idle*(D+3)+1 because nodes being built are marked and never re-entered — induction on the budget with the balanced-marks relation Flags) and C05_invoke_total (in every program no operation runs out of the budget apiInvoke hands out: the model's out-of-fuel answer is unreachable); the on-stack guard (C20_onstack) turns a run-time cycle into an error",
             "K-graph: IsAcyclic via hook vs model, exhaustive on all digraphs with <= 4 nodes + random graphs, each answer also judged on its own; container level: cycle verdicts, cycle lengths, process survival compared with the model under a cycle-heavy generator profile"),
-    "C06": ("C06_provide_unchanged proved at full strength: whenever Provide returns an error (any cause, any state, with or without Export, cycle in the target or any descendant) the container equals the one before in every component except the isVerifiedAcyclic flags — proved through the undo actually performed (rollbackProvide: graph holders truncated, node tables truncated, providers of the target restored), with the invariant `Work` over everything the attempt may have done; C06_decorate_unchanged (a rejected Decorate changes orphan graph nodes only), C06_no_execution", "metamorphic twins on the real library: history with / without each rejected Provide/Decorate followed by a probe sweep must behave identically; full traces compared with the model"),
+    "C06": ("C06_provide_unchanged proved at full strength: whenever Provide returns an error (any cause, any state, with or without Export, cycle in the target or any descendant) the container equals the one before in every component except the isVerifiedAcyclic flags — proved through the undo actually performed (rollbackProvide: graph holders truncated, node tables truncated, providers of the target restored), with the invariant `Work` over everything the attempt may have done; C06_decorate_unchanged (after a rejected Decorate the container equals the container before: the graph nodes added by the parse are rolled back, parse_rollback_eq), C06_no_execution", "metamorphic twins on the real library: history with / without each rejected Provide/Decorate followed by a probe sweep (every key invoked, re-provided, re-decorated from every scope; self-feeding group constructors whose cycle error exposes the graph node order) must behave identically; full traces compared with the model"),
     "C07": ("C07_failed_writes_nothing / C07_failed_deco_writes_nothing (a failing execution changes no cache, flag or registry entry), C07_retry_ctor / C07_retry_deco (after a failing call the node is not built, off the stack / ready, hence executed again on the next demand), C07_others_kept are proved; root cause: C13_ctor_outcome / C13_deco_outcome",
             "trace predicate: no token of a failed execution is ever delivered, root cause of the demanding Invoke is the first failure; traces compared with the model under a fault-heavy profile"),
     "C08": ("C08_path_only (the provider search answers only with the nearest scope on the path to the root), C08_all_providers_on_path, C08_child_path (a new child's path is the child followed by its parent's path: registrations made in ancestors before or after the child was created are equally visible), C08_tree_wf are proved; Export and graph orders are correspondence-only", "wiring across scope trees (up to 7 scopes, Export) compared with the model"),
@@ -35,8 +35,8 @@ TEXT = {
             "wiring with decorators at several scope levels compared with the model"),
     "C13": ("all classification statements proved for every error value the model can build: C13_root_is_leaf, C13_errorsIs_root, C13_user_identity, C13_dig, C13_panic_root, C13_cycle_iff, C13_wrap_*, C13_ctor_outcome, C13_deco_outcome",
             "K-error: chains of wrapper kinds, RootCause, errors.Is, IsCycleDetected, CanVisualizeError of every returned error and callback error compared with the model; trace predicate pred_c13 judges the implementation's own classification"),
-    "C14": ("C14_nonfunc (nil / non-function / nil-function values rejected, container unchanged), C14_bad_options, C14_rejected_decorate, C14_rejected_invoke_parse (only orphan group-parameter graph nodes are added), C14_no_events, and C06_provide_unchanged for rejected Provides are proved; totality of the API is by construction of the model",
-            "grammar-based malformed inputs (55% of registrations): verdict classes compared with the model; any panic escaping dig or process failure is a violation with the program as replay; C06 twins"),
+    "C14": ("C14_nonfunc (nil / non-function / nil-function values rejected, container unchanged), C14_bad_options, C14_rejected_decorate, C14_rejected_invoke_parse (the container afterwards equals the container before), C14_no_events, and C06_provide_unchanged for rejected Provides are proved; totality of the API is by construction of the model",
+            "grammar-based malformed inputs (55% of registrations): verdict classes compared with the model; any panic escaping dig or process failure is a violation with the program as replay; C06 twins extended to Invokes that reject their function"),
     "C15": ("C15_object_build (a parameter object without soft groups is built exactly like the positional list of its fields: same calls, same state, same error point, values in declaration order), C15_interleave_hard, C15_list_build, C15_shallow_flat, C15_dot_flat are proved; the parse-level half and result objects are correspondence-only", "Info structs (the parse made visible) and verdicts compared with the model"),
     "C16": ("verification-timing half proved: C16_defer_never_rejects, C16_eager_step, C16_eager_failure_names_a_check, C16_invoke_checks (an unverified scope is checked by Invoke before anything is built; a cycle rejects without executing anything), C16_flags_only; the permutation half is decided by metamorphic twins on the real library", "metamorphic twins on the real library: permuted registration blocks, scope creation moved earlier, DeferAcyclicVerification on/off against the eager run"),
     "C17": ("C17_silent / C17_silent_history proved at full strength (no enter/exit event in any history of a DryRun container)",
@@ -90,7 +90,7 @@ def main():
                      "serves_properties": [p["id"] for p in props],
                      "kind_free_text": "Lean 4 model of dig with theorems (lean/DigModel), model driver exe, Go executor on the real library, Python generator/differ/shrinker"}],
         "checks": checks,
-        "notes": "All 14 defects found so far were repaired by fix: commits in /repo (KNOWN_FINDINGS.txt lists them as fixed; none is open). See DESIGN.md.",
+        "notes": "All 16 defects found so far were repaired by fix: commits in /repo (KNOWN_FINDINGS.txt lists them as fixed; none is open). See DESIGN.md.",
         "not_applicable": [],
     }
     json.dump(m, open(os.path.join(VERIF, "MANIFEST.json"), "w"), indent=1)
